@@ -28,6 +28,26 @@ BUILT = {
     technique="deterministic simulation with fault injection: consumer fault at every output byte, syntax defect at every input byte, unrepresentable value at random tree positions; expected reasons probed from the serializer/parser crates",
     text="For each sampled document the writer fault position and the syntax-defect position are enumerated completely; the expected cause text is obtained by driving the target serializer / source parser directly. Documents, formats and supply modes are sampled.",
     note="Trusted: serde_json/serde_yaml/rmp-serde/toml as the source of 'the serializer's own reason'; for MessagePack output that reason omits the io text by design of rmp-serde."),
+  "C04": dict(level="exploration", ref="§7 C04",
+    technique="deterministic simulation swarm with fault injection (adversarial inputs x read schedules x producer/consumer faults x repeated calls) in crash-isolated workers with a watchdog; global no-panic/no-hang/no-crash invariants",
+    text="A seeded swarm drives the real library through adversarial inputs under short reads, injected producer/consumer faults and repeated calls; every call must end in Ok or Err, the worker process must survive (stack overflow/abort are observed, not suffered) and the watchdog must not fire. Every other check enforces the same invariants on all of its runs. Sampling only: evidence, not proof.",
+    note="Which bytes crash a parser is better answered by coverage-guided fuzzing; this check adds the I/O and history dimension. Quadratic-but-terminating libyaml scanning of deep flow mappings is kept below the watchdog and not counted as a hang."),
+  "C07": dict(level="exploration", ref="§7 C07",
+    technique="deterministic simulation of the re-encoder between a short-read producer and a small-buffer consumer against a reference decoder model; whole-translation equivalence of encoded vs UTF-8 text",
+    text="The re-encoder (through the verif hook) is driven with code-unit sequences - complete 4096-scalar blocks, every ill-formed class, random unit soup - under producer short reads and consumer buffers down to 1 byte, and compared with a model built on char::decode_utf16/char::from_u32; thorough tier sweeps all 1,112,064 scalars x 4 encodings x BOM x 5 schedule pairs. Whole translations of encode_E(text) are compared with those of the UTF-8 text.",
+    note="Trusted: Rust's char::decode_utf16 / char::from_u32 as the reference decoder; the verif hook adds no logic."),
+  "C09": dict(level="exploration", ref="§7 C09",
+    technique="deterministic simulation: detection vs explicit runs under read schedules and producer faults; bounded-exhaustive + sampled operation programs on the rewindable input handle against a reference model",
+    text="Detection's answer (verif hook) is compared with the explicit run it must equal (verdict, bytes and error text), slice/reader agreement and totality are checked under seeded schedules; every program of <= 3 (thorough: 4) handle operations over all data sizes <= 4 and all chunkings is enumerated and checked step by step against the model 'a borrow always sees the stream from offset 0', longer programs (also with transient producer errors) are sampled.",
+    note="Trusted: the verif hook wrappers. Open finding F7 (position numbers in error texts after the handle flipped to slice mode) is attributed by predicate + neutralising transform."),
+  "C10": dict(level="exploration", ref="§7 C10",
+    technique="deterministic simulation of the pipeline `xt -t F | xt`: stage 1's recorded write boundaries are re-chunked by a seeded pipe model into stage 2's read schedule",
+    text="Generated collection-rooted documents are translated by stage 1; stage 2 runs with detection (reader with the pipe's schedule, and slice) and must detect F and behave like -f F. The schedule dimension is thin here (detection is mostly a function of the bytes); sampling of documents dominates.",
+    note="Trusted: serde_json / serde_yaml as independent judges for the TOML carve-out."),
+  "C18": dict(level="exploration", ref="§7 C18",
+    technique="deterministic simulation: depth windows swept completely per run across slice and reader schedules in crash-isolated workers on an 8 MiB stack; process layer runs the real binaries",
+    text="Every depth in limit-6..limit+6 for each format and shape is executed as slice and under three reader schedules, verdicts must agree and be monotone; far-beyond depths up to 10^6 must be rejected without killing the worker; MessagePack's 1023/1024 boundary and the slice-mode size calculator are compared with rmp_serde.",
+    note="Depth is an input dimension; the simulator contributes supply modes, schedules and crash-isolated observation of the real stack. YAML flow-mapping shapes are limited to depths that libyaml's quadratic scanner finishes within the watchdog."),
 }
 
 NOT_YET = "check not built yet (work in progress; see DESIGN.md §7 for the planned simulation)"
